@@ -202,6 +202,31 @@ pub fn wb(cs: &CS, x: bool) -> Result<Boolean<Fq>, SynthesisError> {
     r
 }
 
+/// a guard with value `x` in presentation `kind`: 0 witness, 1 negation of a witness, 2 / 5 output of a
+/// field comparison gadget, 3 public input, 4 constant
+pub fn guard_as(cs: &CS, x: bool, kind: u8) -> Result<Boolean<Fq>, SynthesisError> {
+    match kind {
+        0 => wb(cs, x),
+        1 => Ok(wb(cs, !x)?.not()),
+        2 => {
+            let before = cs.num_witness_variables();
+            let a = FqVar::new_witness(cs.clone(), val(Fq::from(5u64)))?;
+            let c = FqVar::new_witness(cs.clone(), val(Fq::from(if x { 5u64 } else { 6 })))?;
+            crate::tamper::note_inputs(before, cs.num_witness_variables());
+            a.is_eq(&c)
+        }
+        5 => {
+            let before = cs.num_witness_variables();
+            let a = FqVar::new_witness(cs.clone(), val(Fq::from(5u64)))?;
+            let c = FqVar::new_witness(cs.clone(), val(Fq::from(if x { 6u64 } else { 5 })))?;
+            crate::tamper::note_inputs(before, cs.num_witness_variables());
+            a.is_neq(&c)
+        }
+        3 => Boolean::new_input(cs.clone(), val(x)),
+        _ => Ok(Boolean::constant(x)),
+    }
+}
+
 fn e1(i: &Inp) -> El {
     match i {
         Inp::E(a) | Inp::EE(a, _) | Inp::EEB(a, _, _) | Inp::EBits(a, _) => *a,
@@ -363,6 +388,22 @@ pub fn gadgets() -> Vec<Gadget> {
     g!(v, "conditional_enforce_equal", "EEB", false, |cs, i| { let gd = wb(cs, fbool(i))?; raw(cs, &e1(i))?.conditional_enforce_equal(&raw(cs, &e2(i))?, &gd)?; Ok(OutVar::Unit) }, |i| if !fbool(i) || e1(i) == e2(i) { Some(Out::Unit) } else { None });
     g!(v, "conditional_enforce_not_equal", "EEB", false, |cs, i| { let gd = wb(cs, fbool(i))?; raw(cs, &e1(i))?.conditional_enforce_not_equal(&raw(cs, &e2(i))?, &gd)?; Ok(OutVar::Unit) }, |i| if !fbool(i) || e1(i) != e2(i) { Some(Out::Unit) } else { None });
     g!(v, "conditionally_select", "EEB", false, |cs, i| { let gd = wb(cs, fbool(i))?; Ok(OutVar::E(ElementVar::conditionally_select(&gd, &raw(cs, &e1(i))?, &raw(cs, &e2(i))?)?)) }, |i| Some(Out::E(if fbool(i) { e1(i) } else { e2(i) })));
+    // --- the guard in each of its other presentations: the negation of a witness (`Boolean::Not`), the output of
+    //     a comparison gadget (also a negation internally), a public input, a constant
+    macro_rules! guarded_family {
+        ($k:literal, $sel:literal, $ceq:literal, $cne:literal) => {
+            g!(v, $sel, "EEB", false, |cs, i| { let gd = guard_as(cs, fbool(i), $k)?; Ok(OutVar::E(ElementVar::conditionally_select(&gd, &raw(cs, &e1(i))?, &raw(cs, &e2(i))?)?)) }, |i| Some(Out::E(if fbool(i) { e1(i) } else { e2(i) })));
+            g!(v, $ceq, "EEB", false, |cs, i| { let gd = guard_as(cs, fbool(i), $k)?; raw(cs, &e1(i))?.conditional_enforce_equal(&raw(cs, &e2(i))?, &gd)?; Ok(OutVar::Unit) }, |i| if !fbool(i) || e1(i) == e2(i) { Some(Out::Unit) } else { None });
+            g!(v, $cne, "EEB", false, |cs, i| { let gd = guard_as(cs, fbool(i), $k)?; raw(cs, &e1(i))?.conditional_enforce_not_equal(&raw(cs, &e2(i))?, &gd)?; Ok(OutVar::Unit) }, |i| if !fbool(i) || e1(i) != e2(i) { Some(Out::Unit) } else { None });
+        };
+    }
+    guarded_family!(1, "conditionally_select (guard = negated witness)", "conditional_enforce_equal (guard = negated witness)", "conditional_enforce_not_equal (guard = negated witness)");
+    guarded_family!(2, "conditionally_select (guard = output of FqVar::is_eq)", "conditional_enforce_equal (guard = output of FqVar::is_eq)", "conditional_enforce_not_equal (guard = output of FqVar::is_eq)");
+    guarded_family!(3, "conditionally_select (guard = public input)", "conditional_enforce_equal (guard = public input)", "conditional_enforce_not_equal (guard = public input)");
+    guarded_family!(4, "conditionally_select (constant guard)", "conditional_enforce_equal (constant guard)", "conditional_enforce_not_equal (constant guard)");
+    guarded_family!(5, "conditionally_select (guard = output of FqVar::is_neq)", "conditional_enforce_equal (guard = output of FqVar::is_neq)", "conditional_enforce_not_equal (guard = output of FqVar::is_neq)");
+    g!(v, "conditionally_select (guard = output of ElementVar::is_eq of the operands)", "EE", false, |cs, i| { let (a, bb) = (raw(cs, &e1(i))?, raw(cs, &e2(i))?); let gd = a.is_eq(&bb)?; Ok(OutVar::E(ElementVar::conditionally_select(&gd, &a, &bb)?)) }, |i| Some(Out::E(e2(i))));
+    g!(v, "conditionally_select (guard = output of ElementVar::is_neq of the operands)", "EE", false, |cs, i| { let (a, bb) = (raw(cs, &e1(i))?, raw(cs, &e2(i))?); let gd = a.is_neq(&bb)?; Ok(OutVar::E(ElementVar::conditionally_select(&gd, &a, &bb)?)) }, |i| Some(Out::E(e1(i))));
     // --- equality family on two *constants* (no constraint system is attached to either operand): enforcing a
     //     false statement must fail (error or unsatisfiable), never pass silently
     g!(v, "is_eq (constant, constant)", "EE", false, |cs, i| Ok(OutVar::B(ElementVar::new_constant(cs.clone(), e1(i))?.is_eq(&ElementVar::new_constant(cs.clone(), e2(i))?)?)), |i| Some(Out::B(e1(i) == e2(i))));
